@@ -170,23 +170,14 @@ def render_texts(case):
 
 
 def render_toc(case):
-    """case: {'html': ...}: a document whose links `a.t` print target-counter(attr(href), page) in ::after and whose
-    targets are elements with ids.  layout_document is wrapped to count passes of the re-layout loop.
-    Returns {'pages': n, 'targets': {id: [page indices (1-based) where a box of the element lies]},
-             'links': [[link id, href id, page of the link, printed text]], 'loops': n, 'hit_max': bool}"""
+    """case: {'html': ...}: links `a.t` print target-counter(attr(href), page) in ::after; targets are elements whose
+    id starts with 't'.  make_all_pages is wrapped to count the passes of the re-layout loop of layout_document.
+    Returns {'pages': n, 'targets': {id: [1-based page numbers where a box of the element lies]},
+             'links': [[link id, target id, page of the link, printed text]], 'loops': n, 'max_loops': m}"""
+    import inspect
     from tests.testing_utils import FakeHTML, BASE_URL
     from weasyprint import layout as layout_mod
-    from weasyprint import document as document_mod
-    from weasyprint.formatting_structure import boxes
-    info = {'loops': 0, 'max': None, 'hit': False}
-    orig = layout_mod.layout_document
-
-    def wrapped(html, root_box, context, max_loops=8):
-        info['max'] = max_loops
-        gen = orig(html, root_box, context, max_loops)
-        yield from gen
-    # count passes through the progress logger calls is fragile; instead count make_all_pages calls
-    from weasyprint.layout import page as page_mod
+    max_loops = inspect.signature(layout_mod.layout_document).parameters['max_loops'].default
     orig_make = layout_mod.make_all_pages
     calls = {'n': 0}
 
@@ -194,19 +185,14 @@ def render_toc(case):
         calls['n'] += 1
         return orig_make(*a, **k)
     layout_mod.make_all_pages = counting_make
-    old_doc = document_mod.layout_document
-    document_mod.layout_document = wrapped
-    layout_mod.layout_document = wrapped
     try:
         doc = FakeHTML(string=case['html'], base_url=BASE_URL).render()
     finally:
         layout_mod.make_all_pages = orig_make
-        layout_mod.layout_document = orig
-        document_mod.layout_document = old_doc
     pages = [p._page_box for p in doc.pages]
     targets, links = {}, []
     for pi, page in enumerate(pages, 1):
-        def walk(box, in_after=None):
+        def walk(box):
             el = getattr(box, 'element', None)
             tag = getattr(box, 'element_tag', '') or ''
             if el is not None and '::' not in tag:
@@ -223,5 +209,4 @@ def render_toc(case):
             for c in getattr(box, 'children', ()) or ():
                 walk(c)
         walk(page)
-    return {'pages': len(pages), 'targets': targets, 'links': links, 'loops': calls['n'],
-            'max_loops': info['max'], 'hit_max': info['max'] is not None and calls['n'] >= info['max']}
+    return {'pages': len(pages), 'targets': targets, 'links': links, 'loops': calls['n'], 'max_loops': max_loops}
